@@ -9,8 +9,10 @@ package mast
 
 import (
 	"fmt"
+	"reflect"
 	"sort"
 	"strings"
+	"sync"
 	"unsafe"
 )
 
@@ -102,7 +104,10 @@ func (d *VerifDumper) node(n *mastNode) {
 		d.sb.WriteString(" src=")
 		d.sb.WriteString(*n.source)
 	}
-	fmt.Fprintf(&d.sb, " K%#v V%#v", n.Key, n.Value)
+	d.sb.WriteString(" K")
+	verifRenderSlice(&d.sb, n.Key)
+	d.sb.WriteString(" V")
+	verifRenderSlice(&d.sb, n.Value)
 	geo := fmt.Sprintf(" g%d/%d,%d/%d,%d/%d a%d,%d,%d",
 		len(n.Key), cap(n.Key), len(n.Value), cap(n.Value), len(n.Link), cap(n.Link),
 		d.arr(unsafe.Pointer(unsafe.SliceData(n.Key[:cap(n.Key)])), cap(n.Key)),
@@ -200,4 +205,131 @@ func VerifInspect(v interface{}) (VerifNodeInfo, bool) {
 		}
 	}
 	return info, true
+}
+
+// verifRenderSlice renders the elements of a key or value slice. Plain data is printed with
+// %#v; element types that contain pointers or interfaces are walked by value, so that the
+// rendering never contains an address (addresses differ between isomorphic heaps).
+func verifRenderSlice(sb *strings.Builder, l []interface{}) {
+	if l == nil {
+		sb.WriteString("nil")
+		return
+	}
+	sb.WriteString("[")
+	for i, e := range l {
+		if i > 0 {
+			sb.WriteString(", ")
+		}
+		if e == nil {
+			sb.WriteString("<nil>")
+			continue
+		}
+		t := reflect.TypeOf(e)
+		if !verifHasIndirection(t) {
+			fmt.Fprintf(sb, "%#v", e)
+			continue
+		}
+		verifRenderValue(sb, reflect.ValueOf(e))
+	}
+	sb.WriteString("]")
+}
+
+var verifIndir sync.Map // reflect.Type -> bool
+
+func verifHasIndirection(t reflect.Type) bool {
+	if v, ok := verifIndir.Load(t); ok {
+		return v.(bool)
+	}
+	r := verifHasIndirection1(t, 0)
+	verifIndir.Store(t, r)
+	return r
+}
+
+func verifHasIndirection1(t reflect.Type, depth int) bool {
+	if depth > 8 {
+		return true
+	}
+	switch t.Kind() {
+	case reflect.Ptr, reflect.Interface, reflect.UnsafePointer, reflect.Chan, reflect.Func:
+		return true
+	case reflect.Slice, reflect.Array:
+		return verifHasIndirection1(t.Elem(), depth+1)
+	case reflect.Map:
+		return verifHasIndirection1(t.Key(), depth+1) || verifHasIndirection1(t.Elem(), depth+1)
+	case reflect.Struct:
+		for i := 0; i < t.NumField(); i++ {
+			if verifHasIndirection1(t.Field(i).Type, depth+1) {
+				return true
+			}
+		}
+	}
+	return false
+}
+
+func verifRenderValue(sb *strings.Builder, v reflect.Value) {
+	switch v.Kind() {
+	case reflect.Ptr:
+		if v.IsNil() {
+			fmt.Fprintf(sb, "(%s)nil", v.Type())
+			return
+		}
+		sb.WriteString("&")
+		verifRenderValue(sb, v.Elem())
+	case reflect.Interface:
+		if v.IsNil() {
+			sb.WriteString("<nil>")
+			return
+		}
+		verifRenderValue(sb, v.Elem())
+	case reflect.Struct:
+		sb.WriteString(v.Type().String())
+		sb.WriteString("{")
+		for i := 0; i < v.NumField(); i++ {
+			if i > 0 {
+				sb.WriteString(", ")
+			}
+			sb.WriteString(v.Type().Field(i).Name)
+			sb.WriteString(":")
+			verifRenderValue(sb, v.Field(i))
+		}
+		sb.WriteString("}")
+	case reflect.Slice, reflect.Array:
+		if v.Kind() == reflect.Slice && v.IsNil() {
+			fmt.Fprintf(sb, "%s(nil)", v.Type())
+			return
+		}
+		sb.WriteString(v.Type().String())
+		sb.WriteString("{")
+		for i := 0; i < v.Len(); i++ {
+			if i > 0 {
+				sb.WriteString(", ")
+			}
+			verifRenderValue(sb, v.Index(i))
+		}
+		sb.WriteString("}")
+	case reflect.Map:
+		if v.IsNil() {
+			fmt.Fprintf(sb, "%s(nil)", v.Type())
+			return
+		}
+		sb.WriteString(v.Type().String())
+		sb.WriteString("{")
+		var parts []string
+		for _, k := range v.MapKeys() {
+			var b strings.Builder
+			verifRenderValue(&b, k)
+			b.WriteString(":")
+			verifRenderValue(&b, v.MapIndex(k))
+			parts = append(parts, b.String())
+		}
+		sort.Strings(parts)
+		sb.WriteString(strings.Join(parts, ", "))
+		sb.WriteString("}")
+	default:
+		if v.CanInterface() {
+			fmt.Fprintf(sb, "%#v", v.Interface())
+		} else {
+			fmt.Fprintf(sb, "%v", v)
+		}
+	}
 }
